@@ -345,7 +345,9 @@ theorem toI64Filter_no_panic (mode : Int → Int) (input : V) (args : List V) :
   unfold toI64Filter
   split
   · split
-    · split <;> rfl
+    · split
+      · rfl
+      · split <;> rfl
     · rfl
   · rfl
 
@@ -353,10 +355,12 @@ theorem roundGo_no_panic (ops : FloatOps) (input : V) (n : Int) : (roundGo ops i
   unfold roundGo
   split
   · split
-    · split
-      · rfl
-      · split <;> rfl
     · rfl
+    · split
+      · split
+        · rfl
+        · split <;> rfl
+      · rfl
   · rfl
 
 theorem roundFilter_no_panic (ops : FloatOps) (input : V) (args : List V) :
